@@ -337,6 +337,8 @@ def gen_history(r, profile=None, length=None, allow_f2=True):
             if st.step(t) == "P":
                 st.dead = True
 
+    for _ in range(r.choice([0, 1, 2, 3])):
+        emit("a," + rand_atom_hex(r))
     if profile == "atomcap":
         emit("ga,%d" % (MAX_ATOMS - 2 - r.choice([0, 1, 2, 3, 5, 9])))
     if profile == "paircap":
